@@ -18,7 +18,7 @@ from ..runner import HarnessError
 
 LEVEL = 'model_checking'
 
-ATOMS = ['R', 'B', 'C', 'D', 'T', 'W', 'X', 'F', 'M', 'U']
+ATOMS = ['R', 'B', 'C', 'D', 'T', 'W', 'X', 'F', 'M', 'U', 'K']
 COMPOUND = ['if', 'ifelse', 'while', 'forever', 'for', 'tryundo', 'trystop', 'preempt']
 
 
@@ -39,7 +39,7 @@ def gen_stmt(n, ctx):
         for a in ATOMS:
             if a in 'BC' and not in_loop:
                 continue
-            if a in 'DTF' and not defeat_ok:
+            if a in 'DTFK' and not defeat_ok:
                 continue
             yield (a,)
         # empty compound statements
@@ -103,6 +103,9 @@ class Printer:
             return m + 'all_is_broken(); '
         if k == 'F':
             return m + '!dfn(x); '
+        if k == 'K':
+            # the condition folds to constant false: the statement never defeats and execution goes on
+            return m + ('!truth_is_defeat(KF); ' if self.n % 2 else '!truth_is_defeat(KN < 5); ')
         if k == 'M':
             return m + 'y = 1 - y; '
         if k == 'U':
@@ -131,7 +134,8 @@ class Printer:
         raise ValueError(s)
 
 
-PRE = ("empty !dfn(int v) { write('~'); !truth_is_defeat(v % 2 == 0); }\n"
+PRE = ("const bool KF = false; const int KN = 9;\n"
+       "empty !dfn(int v) { write('~'); !truth_is_defeat(v % 2 == 0); }\n"
        "empty all_is_broken(string why) { write(why); }\nempty all_is_win(int code) { write(code); }\n")
 SENTINEL = 'empty sentinel() { write("FELL"); all_is_broken(); }\n'
 
@@ -310,7 +314,7 @@ def check_src(st, src, nbits, nmarks, flavour, ret):
 def coverage(total, tier):
     cov = std_coverage(total, {
         'B': 'all statement sequences of total size <= ' + ('3 and size 4 (all for plain, every 3rd for you/defeat functions)' if tier == 'thorough' else '2 and size 3 (every 2nd for plain, every 6th for you/defeat functions)') + f' over atoms {ATOMS} (R return, B break, C continue, '
-             f'plus {len(CURATED)}+{len(CURATED_YOU)} curated larger loop bodies mixing continue/break/return; D !is_defeat, T !truth_is_defeat(bit), W all_is_win, X all_is_broken, F defeat-function call, M plain statement, U call of a user-defined overload of all_is_win/all_is_broken) and compounds '
+             f'plus {len(CURATED)}+{len(CURATED_YOU)} curated larger loop bodies mixing continue/break/return; D !is_defeat, T !truth_is_defeat(bit), W all_is_win, X all_is_broken, F defeat-function call, M plain statement, K !truth_is_defeat of a condition that folds to constant false, U call of a user-defined overload of all_is_win/all_is_broken) and compounds '
              f'{COMPOUND}, context-valid, as body of {KINDS}; every statement preceded by a distinct marker; all 2^k assignments of the k condition bits',
     })
     for k in ('accepted', 'rejected', 'unspecified', 'lint_rejected', 'lint_identical', 'unreached_but_not_flagged'):
